@@ -124,6 +124,9 @@ class ExprMixin:
             for n, ty in ast[2]:
                 s = SORTS.get(ty, T.INT)
                 bn = T.fresh_name(n)
+                if not hasattr(self, 'bound_names_all'):
+                    self.bound_names_all = set()
+                self.bound_names_all.add(bn)
                 v = T.V(bn, s)
                 names[n] = (v, None)
                 vs.append((bn, s))
@@ -296,6 +299,9 @@ class ExprMixin:
             a = self.eval_int(args[0], env)
             b = self.eval_int(args[1], env)
             return T.tmax(a, b), None
+        if name == 'isCancelled':
+            x, tn = self.eval(args[0], env)
+            return T.eq(self.uf_errkind(x), T.I(self.err_kind_id('cancelled'))), None
         if name == 'isEOF':
             x, tn = self.eval(args[0], env)
             return self.uf_iseof(x), None
@@ -330,6 +336,12 @@ class ExprMixin:
         if name == 'wrapS64':
             a = self.eval_int(args[0], env)
             return T.sub(T.smod(T.add(a, T.I(1 << 63)), T.I(1 << 64)), T.I(1 << 63)), None
+        gfs = getattr(self.specs, 'ghostfields', {})
+        if name in gfs:
+            x = self.eval_int(args[0], env)
+            sort = SORTS.get(gfs[name], T.INT)
+            arr = self.heap_get(env.state, 'G|' + name, T.ARR(T.INT, sort))
+            return T.select(arr, x), None
         sf = self.specs.specfuncs.get(name)
         if sf is not None:
             vals = [self.eval(a, env) for a in args]
@@ -367,22 +379,61 @@ class ExprMixin:
             self.note_rec_application(sf, tuple(targs), t)
         return t
 
-    # recursive spec functions: unfold definitions at occurring applications (depth-limited)
+    # recursive spec functions: definitions are unfolded at query-generation time, at the ground applications that
+    # occur in the query (after instantiation) -- never as quantified definitional axioms (DESIGN 3.5)
     def note_rec_application(self, sf, targs, t, depth=0):
-        key = (sf.name, targs)
-        if key in self.rec_seen:
-            return
-        self.rec_seen[key] = t
-        if self.rec_depth >= 2:
-            return
-        self.rec_depth += 1
-        try:
-            names = {pn: (v, None) for (pn, _), v in zip(sf.params, targs)}
-            e2 = Env(names, self.entry_state, self.entry_state, {}, None)
-            body, _ = self.eval(sf.parse(), e2)
-            self.rec_defs.append(T.eq(t, body))
-        finally:
-            self.rec_depth -= 1
+        pass
+
+    def rec_definition(self, sf, targs, t):
+        names = {pn: (v, None) for (pn, _), v in zip(sf.params, targs)}
+        e2 = Env(names, self.entry_state, self.entry_state, {}, None)
+        body, _ = self.eval(sf.parse(), e2)
+        return T.eq(t, body)
+
+    def make_unfolder(self, depth=2):
+        seen = set()
+
+        def unfold(terms_):
+            out = []
+            work = list(terms_)
+            for _ in range(depth):
+                new = []
+                for term in work:
+                    for sub in T.subterms(term):
+                        if sub[0] == 'a' and sub[1].startswith('uf:spec_') and sub not in seen:
+                            sf = self.specs.specfuncs.get(sub[1][len('uf:spec_'):])
+                            if sf is None or not sf.rec:
+                                continue
+                            if any(('!' in n and n.split('!')[0] in self._qnames) for n in T.free_vars(sub)):
+                                pass
+                            if self.mentions_bound(sub):
+                                continue
+                            seen.add(sub)
+                            try:
+                                d = self.rec_definition(sf, tuple(sub[2:]), sub)
+                            except Unsupported:
+                                continue
+                            new.append(d)
+                out.extend(new)
+                work = new
+                if not work:
+                    break
+            return out
+        return unfold
+
+    _qnames = frozenset()
+
+    def mentions_bound(self, t):
+        bn = getattr(self, 'bound_names_all', None)
+        if not bn:
+            return False
+        for n in T.free_vars(t):
+            if n in bn:
+                return True
+        return False
+
+    def unfold_in(self, term):
+        pass
 
     # ---- uninterpreted helpers
     def strlen(self, x):
